@@ -93,10 +93,9 @@ def _loads_kvn(string):
 
             data.append(obj)
 
-    if len(sets) == 1:
-        sets = sets.pop()
-
-    return sets
+    # One MeasureSet for the whole message (each measure carries its own path),
+    # as documented, and as dumps() expects it
+    return MeasureSet(m for s in sets for m in s)
 
 
 def _loads_xml(string):
@@ -145,10 +144,9 @@ def _loads_xml(string):
             else:
                 raise CcsdsError(f"Unknown type : {meas_type}")
 
-    if len(sets) == 1:
-        sets = sets.pop()
-
-    return sets
+    # One MeasureSet for the whole message (each measure carries its own path),
+    # as documented, and as dumps() expects it
+    return MeasureSet(m for s in sets for m in s)
 
 
 def collect_metadata(path, measure_set):
